@@ -48,14 +48,17 @@ PROBED = ("prop-name-required", "prop-name-optional", "prop-name-enum", "prop-na
 #  repr() switch to double quotes, which end the f"..." literal)
 
 
-def slot_document(probe=""):
+DQ_PROBED = PROBED + ("info-title",)      # (the const slots are left out: known finding C05-K3)
+
+
+def slot_document(probe="", probed=None):
     """probe: a suffix appended to the text of every name / value slot (e.g. "'x" to tell repr()-made quotes from
     template-made quotes: only the latter break when the text contains a single quote)"""
     SLOTS.clear()
 
     def s(name):
         m = slot(name)
-        if probe and name.startswith(PROBED):
+        if probe and name.startswith(probed or PROBED):
             PROBE_TEXT[name] = m + probe
             return m + probe
         return m
@@ -186,11 +189,11 @@ def toml_contexts(text, markers):
     return out
 
 
-def collect(config=None, meta="none", probe=""):
+def collect(config=None, meta="none", probe="", probed=None):
     """render the slot document with the real generator; returns (occurrences, errors, files, doc)"""
     from .replay import generate_tree
     import shutil
-    doc = slot_document(probe)
+    doc = slot_document(probe, probed)
     errors, out, files, tmp = generate_tree(document=doc, config=config, meta=meta)
     occ = []          # (file, slot, context)
     inv = {v: k for k, v in SLOTS.items()}
